@@ -504,9 +504,14 @@ def run(chk) -> None:
 
 
 MANIFEST_ENTRY = {
-    "text": "Static index-kind analysis of the current source (0-based positions vs 1-based BPSEQ numbers with constant offsets) at every subscript, slice bound, 1-based field store, range bound and "
-    "comparison of the element decomposition, plus window-shape rules for BpSeq.elements (stops, closed windows, tails, hairpin/link/closure tests, walk order, own dot-bracket) and the Strand/Stem "
-    "constructors. These are necessary conditions whose violation shifts, truncates or mis-links elements for some structure; they hold for all structures because they are facts about the index arithmetic itself.",
-    "note": "Trusted: seed table of 1-based fields. Not decided: the loop-linking walk on knotted multiloops and the 'exactly one' coverage claim as a whole (need execution).",
-    "technique": "static analysis: abstract interpretation with index kinds (base, offset) + structural shape rules over the ast",
+    "text": "Static analysis of the current source of the element decomposition: (1) index-kind abstract interpretation (0-based positions vs 1-based BPSEQ numbers with constant offsets) at every "
+    "subscript, slice bound, 1-based field store, range bound and comparison; (2) fact-level rules for BpSeq.elements over canonical symbolic positions (affine forms with def-use roles, literal loops "
+    "unrolled, path enumeration of the window loop): the stop set is exactly the four strand ends of every stem, every consecutive pair of stops cuts a closed window that becomes a hairpin / a loop-strand "
+    "candidate / nothing by the interior and end tests, the two tails and the leftover strands, the linking graph (edge iff entries[a.last-1].pair == b.first, every ordered pair examined, also through an "
+    "index map), the closure test and walk order, the three idioms of the successor walk, every strand text sliced from the structure's own dot-bracket; (3) the Strand/Stem constructors evaluated as "
+    "extracted fragments on representative spans (affine in first/length); (4) a reaching-definition rule for the CLI (the dot-bracket shown and the elements listed belong to the same object); (5) the "
+    "cross-cutting memo-key rule. All are necessary conditions whose violation shifts, truncates, drops or mis-links elements for some structure; they hold for all structures because they are facts about the "
+    "index arithmetic and the paths of the code itself. Pinned-form comparison is used only as a per-aspect fallback when an aspect cannot be read at fact level.",
+    "note": "Trusted: seed table of 1-based fields, CPython ast. Not decided: that the coded walk finds every loop of a knotted multiloop, and the 'exactly one' coverage claim as a whole (need execution).",
+    "technique": "static analysis: abstract interpretation with index kinds (base, offset) + symbolic affine positions with def-use roles + path enumeration + fragment evaluation on input-class representatives + reaching definitions, all over the ast",
 }
